@@ -71,6 +71,12 @@ static void light_worker()
   g_bw.b._options.error_notifier = notifier;
 }
 
+using NA0 = std::vector<std::pair<std::string, std::string>>;
+union NA0Slot { NA0 v; NA0Slot() {} ~NA0Slot() {} };
+static NA0Slot g_ev_na;
+union PairStore { std::pair<std::string, std::string> p[1]; PairStore() {} ~PairStore() {} };
+static PairStore g_ev_na_ps;
+#define g_ev_na_store g_ev_na_ps.p
 extern "C" void h_event()
 {
   light_worker();
@@ -84,6 +90,14 @@ extern "C" void h_event()
     // kind 3: a LOG_BACKTRACE statement on a logger whose backtrace was never initialised (the real code throws QuillError)
     g_fault[r] = static_cast<uint8_t>(vnd_range(0, 3));
     te->timestamp = ts; te->macro_metadata = g_fault[r] == 3 ? &MD_BT : &MD_LOG; te->logger_base = logger_at(0);
+    if (r == 0)
+    {
+      // the first event carries one named argument (typed static storage, SSO strings: no heap)
+      NA0* na = new (&g_ev_na.v) NA0();
+      new (&g_ev_na_store[0]) std::pair<std::string, std::string>("k", "v");
+      na->_M_impl._M_start = g_ev_na_store; na->_M_impl._M_finish = g_ev_na_store + 1; na->_M_impl._M_end_of_storage = g_ev_na_store + 1;
+      *reinterpret_cast<NA0**>(&te->named_args) = na;
+    }
     teb_at(0)->push_back();
   }
   uint32_t faults = 0, bts = 0;
@@ -97,6 +111,7 @@ extern "C" void h_event()
     VASSERT(teb_at(0)->size() == before - 1);            // the event is consumed whether or not it failed: never re-read
     VASSERT(g_ndisp == disp + (g_fault[i] == 3 ? 0u : 1u));   // exactly one dispatch attempt (none for the unusable backtrace statement)
     VASSERT(g_notes == notes + (g_fault[i] ? 1u : 0u));  // reported once iff it failed
+    if (i == 0) VASSERT(g_ev_na.v.empty());               // the slot is recycled: its named arguments are cleared even if the event failed
     if (g_fault[i]) faults++;
     if (g_fault[i] == 3) bts++;
   }
@@ -229,6 +244,7 @@ extern "C" TransitEvent::FormatBuffer* vh_vformat_to(BI* out, char const*, size_
   return &g_fb.b;
 }
 extern "C" void vh_format3(std::string* ret, char const*, size_t, char const**, char const**, char const**) { new (ret) std::string("E"); }
+extern "C" void vh_format1(std::string* ret, char const*, size_t, unsigned long*) { new (ret) std::string("_0"); }
 extern "C" void vh_format2(std::string* ret, char const*, size_t, char const**, char const**) { new (ret) std::string("E"); }
 extern "C" void h_format()
 {
@@ -246,5 +262,28 @@ extern "C" void h_format()
   VASSERT(g_notes == (g_fault[0] ? 1u : 0u));
   if (g_fault[0]) { VASSERT(fb->size() == 1); VASSERT((*fb)[0] == 'E'); }
   else { VASSERT(fb->size() == 2); VASSERT((*fb)[0] == 'o' && (*fb)[1] == 'k'); }
+  VWITNESS(g_fault[0] == 2);
+}
+
+// ---- second formatting pass of a statement with named arguments: the REAL _populate_formatted_named_args with the
+// per-argument rendering (_format_and_split_arguments) replaced by a hook that throws; nothing may escape (an exception
+// here would leave the record unread and the backend would decode it again on every poll)
+using NA = std::vector<std::pair<std::string, std::string>>;
+union NASlot { NA v; NASlot() {} ~NASlot() {} };
+static NASlot g_na, g_names;
+static std::pair<std::string, std::string> g_na_store[2];
+extern "C" void vh_split(NA const&, NA&, DynamicFormatArgStore const&, BackendOptions const&) { maybe_throw(0); }
+extern "C" void h_format_named()
+{
+  light_worker();
+  new (&g_bw.b._format_args_store) DynamicFormatArgStore();
+  NA* na = new (&g_na.v) NA(); NA* names = new (&g_names.v) NA();
+  TransitEvent& te = g_te1.e;
+  memset(static_cast<void*>(&te), 0, sizeof(TransitEvent));
+  te.macro_metadata = &MD_LOG; *reinterpret_cast<NA**>(&te.named_args) = na;
+  g_fault[0] = static_cast<uint8_t>(vnd_range(0, 2));
+  bool escaped = false;
+  try { bw()._populate_formatted_named_args(&te, *names); } catch (...) { escaped = true; }
+  VASSERT(!escaped);
   VWITNESS(g_fault[0] == 2);
 }
